@@ -80,6 +80,55 @@ func H_C13_nexus() {
 	sxReach("checked")
 }
 
+// H_C13_nexus_names: a hand-written TREES block whose tree names come in any
+// order (and may repeat): trees are delivered in file order under their names.
+func H_C13_nexus_names() {
+	n := sxParam("n", 4)
+	k := 2 + sxChoose("ntrees", sxParam("maxtrees", 2)-1)
+	pool := []string{"b", "a", "tree10", "tree2"}
+	src := make([]*tree.Tree, k)
+	names := make([]string, k)
+	text := "#NEXUS\nBEGIN TREES;\n"
+	for i := range src {
+		src[i] = genTree(n, 0, sxParam("binary", 0) == 1)
+		names[i] = pool[sxChoose(fmt.Sprintf("name%d", i), len(pool))]
+		text += "  TREE " + names[i] + " = " + src[i].Newick() + "\n"
+	}
+	text += "END;\n"
+	sxReach("ready")
+	nx, err := nexus.NewParser(strings.NewReader(text)).Parse()
+	sxAssert(err == nil, "the Nexus text parses")
+	if err != nil {
+		return
+	}
+	sxAssert(nx.NTrees() == k, "every tree of the file is delivered")
+	i := 0
+	nx.IterateTrees(func(name string, t *tree.Tree) {
+		if i < k {
+			sxAssert(name == names[i], "tree names in file order")
+			c01same(src[i].Root(), nil, t.Root(), nil, nil, nil)
+		}
+		i++
+	})
+	sxAssert(i == k, "trees delivered in file order, none skipped")
+	first, err := utils.ReadTreeReader(bufio.NewReader(strings.NewReader(text)), utils.FORMAT_NEXUS)
+	sxAssert(err == nil && first != nil, "ReadTreeReader reads the Nexus text")
+	if first != nil {
+		c01same(src[0].Root(), nil, first.Root(), nil, nil, nil)
+	}
+	id := 0
+	for rec := range utils.ReadMultiTrees(bufio.NewReader(strings.NewReader(text)), utils.FORMAT_NEXUS) {
+		sxAssert(rec.Err == nil && rec.Tree != nil, "multi-tree reader delivers trees")
+		sxAssert(rec.Id == id, "consecutive identifiers")
+		if id < k && rec.Tree != nil {
+			c01same(src[id].Root(), nil, rec.Tree.Root(), nil, nil, nil)
+		}
+		id++
+	}
+	sxAssert(id == k, "multi-tree reader delivers every tree")
+	sxReach("checked")
+}
+
 // H_C13_multi_newick: a multi-tree Newick file with arbitrary blank bytes after
 // each ';' is delivered tree by tree, in order, with consecutive ids.
 func H_C13_multi_newick() {
